@@ -166,3 +166,160 @@
         }
         crate::vcover!(magic_ok && flags_ok && crc_ok);
     }
+
+    // ---------------------------------------------------------------- XZReader state-machine pieces
+
+    fn spec_header_valid(b: &[u8; 12]) -> bool {
+        b[0] == 0xFD && b[1] == b'7' && b[2] == b'z' && b[3] == b'X' && b[4] == b'Z' && b[5] == 0
+            && b[6] == 0 && (b[7] == 0 || b[7] == 1 || b[7] == 4 || b[7] == 10)
+            && u32::from_le_bytes([b[8], b[9], b[10], b[11]]) == CRC32.checksum(&b[6..8])
+    }
+
+    /// C12.xz.pad: after a footer, p zero bytes followed by `tail_len` arbitrary bytes (first one non-zero):
+    /// Ok(true) ⇔ tail is a valid 12-byte stream header ∧ p % 4 = 0 (then the new header is installed and the block
+    /// counter reset); Ok(false) only at end of input; everything else is an error.
+    fn xz_next_stream(p: usize, tail_len: usize) {
+        let tail: [u8; 12] = vk::any();
+        vk::assume(tail_len == 0 || tail[0] != 0);
+        let mut buf = [0u8; 24];
+        let mut i = 0;
+        while i < tail_len { buf[p + i] = tail[i]; i += 1; }
+        let mut r = XZReader::new(vk::Src::<24>::new(buf, p + tail_len), true);
+        r.stream_header = Some(StreamHeader { check_type: CheckType::Crc32 });
+        r.blocks_processed = 3;
+        let res = r.try_start_next_stream();
+        let valid = tail_len == 12 && spec_header_valid(&tail);
+        match res {
+            Ok(true) => {
+                assert!(valid && p % 4 == 0);
+                assert!(r.blocks_processed == 0);
+                assert!(r.stream_header.as_ref().unwrap().check_type as u8 == tail[7]);
+                assert!(r.compressed_bytes_read.get() == (p + 12) as u64);
+            }
+            Ok(false) => assert!(tail_len == 0),
+            Err(e) => {
+                assert!(tail_len != 0);
+                assert!(!(valid && p % 4 == 0));
+                assert!(e.kind() == std::io::ErrorKind::InvalidData || e.kind() == std::io::ErrorKind::UnexpectedEof);
+            }
+        }
+        if tail_len == 12 && p % 4 == 0 { crate::vcover!(valid); }
+        core::mem::forget(r);
+    }
+    #[kani::proof]
+    #[kani::unwind(26)]
+    #[kani::stub(crate::error_invalid_data, crate::vk::err_invalid_data)]
+    #[kani::stub(crate::error_eof, crate::vk::err_eof)]
+    fn c12_xz_next_stream_p0_t12() { xz_next_stream(0, 12); }
+    #[kani::proof]
+    #[kani::unwind(26)]
+    #[kani::stub(crate::error_invalid_data, crate::vk::err_invalid_data)]
+    #[kani::stub(crate::error_eof, crate::vk::err_eof)]
+    fn c12_xz_next_stream_p4_t12() { xz_next_stream(4, 12); }
+    #[kani::proof]
+    #[kani::unwind(26)]
+    #[kani::stub(crate::error_invalid_data, crate::vk::err_invalid_data)]
+    #[kani::stub(crate::error_eof, crate::vk::err_eof)]
+    fn c12_xz_next_stream_p8_t12() { xz_next_stream(8, 12); }
+    #[kani::proof]
+    #[kani::unwind(26)]
+    #[kani::stub(crate::error_invalid_data, crate::vk::err_invalid_data)]
+    #[kani::stub(crate::error_eof, crate::vk::err_eof)]
+    fn c12_xz_next_stream_p1_t12() { xz_next_stream(1, 12); }
+    #[kani::proof]
+    #[kani::unwind(26)]
+    #[kani::stub(crate::error_invalid_data, crate::vk::err_invalid_data)]
+    #[kani::stub(crate::error_eof, crate::vk::err_eof)]
+    fn c12_xz_next_stream_p2_t12() { xz_next_stream(2, 12); }
+    #[kani::proof]
+    #[kani::unwind(26)]
+    #[kani::stub(crate::error_invalid_data, crate::vk::err_invalid_data)]
+    #[kani::stub(crate::error_eof, crate::vk::err_eof)]
+    fn c12_xz_next_stream_p3_t12() { xz_next_stream(3, 12); }
+    #[kani::proof]
+    #[kani::unwind(26)]
+    #[kani::stub(crate::error_invalid_data, crate::vk::err_invalid_data)]
+    #[kani::stub(crate::error_eof, crate::vk::err_eof)]
+    fn c12_xz_next_stream_p5_t12() { xz_next_stream(5, 12); }
+    #[kani::proof]
+    #[kani::unwind(26)]
+    #[kani::stub(crate::error_invalid_data, crate::vk::err_invalid_data)]
+    #[kani::stub(crate::error_eof, crate::vk::err_eof)]
+    fn c12_xz_next_stream_p0_t0() { xz_next_stream(0, 0); }
+    #[kani::proof]
+    #[kani::unwind(26)]
+    #[kani::stub(crate::error_invalid_data, crate::vk::err_invalid_data)]
+    #[kani::stub(crate::error_eof, crate::vk::err_eof)]
+    fn c12_xz_next_stream_p4_t0() { xz_next_stream(4, 0); }
+    #[kani::proof]
+    #[kani::unwind(26)]
+    #[kani::stub(crate::error_invalid_data, crate::vk::err_invalid_data)]
+    #[kani::stub(crate::error_eof, crate::vk::err_eof)]
+    fn c12_xz_next_stream_p4_t5() { xz_next_stream(4, 5); }
+    #[kani::proof]
+    #[kani::unwind(26)]
+    #[kani::stub(crate::error_invalid_data, crate::vk::err_invalid_data)]
+    #[kani::stub(crate::error_eof, crate::vk::err_eof)]
+    fn c12_xz_next_stream_p0_t1() { xz_next_stream(0, 1); }
+
+    /// C05.xz.pad / C04.xz.block: consume_padding with a source that delivers arbitrarily short reads and Interrupted:
+    /// Ok ⇔ the (4 - pos%4)%4 bytes are all zero; exactly that many bytes are consumed; behaviour depends only on the bytes.
+    fn xz_consume_padding(short: bool, interrupts: u8) {
+        let b: [u8; 4] = vk::any();
+        let start: u64 = vk::any();
+        vk::assume(start < 1 << 40);
+        let need = ((4 - (start % 4)) % 4) as usize;
+        let mut src = vk::IoAny::<4>::new(b, 4);
+        src.short = short;
+        src.interrupts_left = interrupts;
+        let mut r = XZReader::new(src, false);
+        r.compressed_bytes_read.set(start);
+        let res = r.consume_padding();
+        let zeros = (need < 1 || b[0] == 0) && (need < 2 || b[1] == 0) && (need < 3 || b[2] == 0);
+        match res {
+            Ok(()) => {
+                assert!(zeros);
+                assert!(r.compressed_bytes_read.get() == start + need as u64);
+                assert!(r.original_reader.borrow().pos == need);
+            }
+            Err(e) => {
+                assert!(!zeros);
+                assert!(e.kind() == std::io::ErrorKind::InvalidData);
+            }
+        }
+        crate::vcover!(need == 3 && zeros);
+        core::mem::forget(r);
+    }
+    #[kani::proof]
+    #[kani::unwind(8)]
+    #[kani::stub(crate::error_invalid_data, crate::vk::err_invalid_data)]
+    #[kani::stub(crate::error_eof, crate::vk::err_eof)]
+    fn c05_xz_consume_padding_full() { xz_consume_padding(false, 0); }
+    #[kani::proof]
+    #[kani::unwind(8)]
+    #[kani::stub(crate::error_invalid_data, crate::vk::err_invalid_data)]
+    #[kani::stub(crate::error_eof, crate::vk::err_eof)]
+    fn c05_xz_consume_padding_short() { xz_consume_padding(true, 0); }
+    #[kani::proof]
+    #[kani::unwind(8)]
+    #[kani::stub(crate::error_invalid_data, crate::vk::err_invalid_data)]
+    #[kani::stub(crate::error_eof, crate::vk::err_eof)]
+    fn c05_xz_consume_padding_intr() { xz_consume_padding(false, 2); }
+
+    /// C05.xz.pad: truncation inside the padding is an error (never Ok).
+    #[kani::proof]
+    #[kani::unwind(8)]
+    #[kani::stub(crate::error_invalid_data, crate::vk::err_invalid_data)]
+    #[kani::stub(crate::error_eof, crate::vk::err_eof)]
+    fn c05_xz_consume_padding_eof() {
+        let avail: usize = vk::any();
+        vk::assume(avail < 3);
+        let start: u64 = vk::any();
+        vk::assume(start < 1 << 40);
+        let need = ((4 - (start % 4)) % 4) as usize;
+        vk::assume(need > avail);
+        let mut r = XZReader::new(vk::IoAny::<4>::new([0u8; 4], avail), false);
+        r.compressed_bytes_read.set(start);
+        assert!(r.consume_padding().is_err());
+        core::mem::forget(r);
+    }
